@@ -7,7 +7,7 @@
      fchain / fskipped            consecutive deliveries have forward gap 1..2^15 mod 2^16 / skipped numbers
      okB bs                       the configured BufferSize (0 = default 64) is 2^k, k <= 14 *)
 From GVL Require Import NList Wire Wrap.
-From GV_receiver Require Import Model Proofs Steps Hist Fate Top.
+From GV_receiver Require Import Model Proofs Steps Hist Fate Top Big.
 Open Scope Z_scope.
 
 (* inv_reachable: for every transport, every power-of-two buffer size, every history of well-formed
@@ -96,6 +96,17 @@ Print Assumptions C14_receiver_report_extended_seq.
 Theorem C14_receiver_displaced_delivered_refuted : ~ displaced_claim.
 Proof. exact displaced_claim_refuted. Qed.
 Print Assumptions C14_receiver_displaced_delivered_refuted.
+
+(* second refutation (finding bufsize-int16-overflow): BufferSize 32768 is a power of two, but
+   int16(len(buffer)) = -32768 makes every forward packet take the flush branch; arrivals 101 103 102:
+   102 is late by one position, it is dropped, nothing is buffered, it is counted lost.  (The theorems above
+   are stated for sizes 2^k with k <= 14.) *)
+Theorem C14_receiver_bufsize_32768_refuted : exists s' evs,
+  run_ops (init true 32768) (arrivals [101; 103; 102]) = (s', evs) /\
+  late_ok 32768 [101; 103; 102] = true /\
+  delivered_seqs evs = [101; 103] /\ empty_buf (buf s') /\ lost s' = 1.
+Proof. exact bufsize_32768_refuted. Qed.
+Print Assumptions C14_receiver_bufsize_32768_refuted.
 
 (* displaced_delivered_partial, 1: a packet that arrives at or ahead of the head is delivered now or stored,
    unless a packet with the same sequence number is already buffered.  2: the only packets dropped on
